@@ -1024,8 +1024,9 @@ class MyPyAstVisitor:
                 for mod in self.api.reexport_map[reexport_name_forward]:
                     reexported_by.add(mod)
 
+            # The name alone is no reexport of the declaration: "import logging" imports a module of that name
             reexport_name_backward = ".".join(path[-i - 1 :])
-            if reexport_name_backward in self.api.reexport_map:
+            if i > 0 and reexport_name_backward in self.api.reexport_map:
                 for mod in self.api.reexport_map[reexport_name_backward]:
                     reexported_by.add(mod)
 
